@@ -7,6 +7,8 @@
 -/
 import Ptx.Proofs.LangOrder
 import Ptx.Proofs.LangCache
+import Ptx.Proofs.LangCacheSeq
+import Ptx.Proofs.LangCacheFuel
 namespace Ptx.Props.C14
 open Ptx
 
@@ -256,7 +258,8 @@ theorem argument_hash_consistent (H : List Int → UInt64) (T : List UInt64 → 
   construct with nested cached calls, from-ident path, store under `(clsname, spec)` and under
   `inst.ident`, eviction); `build fx cls args` is the same call in a process with nothing cached.
 
-  FULL STATEMENT (kept; what is proved below is the `_partial` version):
+  FULL STATEMENT (kept; PROVED below as `cache_transparent`, and over all call sequences from the
+  empty cache as `cache_transparent_seq`; `cache_transparent_partial` is the earlier version):
 
     statement cache_transparent (c : Cache) (hc : c.Inv) (cls) (args) :
         (metacall fixed c cls args).1 = build fixed cls args ∧ (metacall fixed c cls args).2.Inv
@@ -265,14 +268,20 @@ theorem argument_hash_consistent (H : List Int → UInt64) (T : List UInt64 → 
                           ∧ (∀ (v,ks) ∈ c.rev, .item v ∈ ks ∧ ∀ k ∈ ks, c.get k = some v)
                           ∧ (∀ (k,v) ∈ c.idx, ∃ ks, (v,ks) ∈ c.rev ∧ k ∈ ks)
 
-  Proved: for EVERY cache state whose entries are sound (any maxlen incl. 0, 1, 2; any eviction
-  history — eviction only deletes entries), the answer equals the fresh build and soundness is
-  preserved, provided (a) the ident round trip holds for every constructible item (`RoundTrips`,
-  the hypothesis the cache itself relies on when it files an item under `inst.ident`; this is
-  exactly what fails on the unfixed tree, see `cache_not_transparent_unfixed`), (b) the recursion
-  budget suffices for the fresh build, and (c) modulo a KeyError/IndexError raised INSIDE
-  DequeCache, which the structural half of `Inv` excludes (not yet proved in Lean; the driver
-  evaluates the structural half after every sequence — `inv=1` — and the harness compares).
+  `cache_transparent_partial` (kept unchanged): for EVERY cache state whose entries are sound (any
+  maxlen incl. 0, 1, 2; any eviction history — eviction only deletes entries), the answer equals
+  the fresh build and soundness is preserved, provided (a) the ident round trip holds for every
+  constructible item (`RoundTrips`), (b) the recursion budget suffices for the fresh build, and
+  (c) modulo a KeyError/IndexError raised INSIDE DequeCache.
+  NOTE on (a): `RoundTrips fx` quantifies over ALL argument values, including `Arg.item x` for an
+  `x : Item` that no constructor returns (e.g. `Atomic(100, 0)`), which the passthrough hands back
+  and which is not rebuilt from its ident: `roundTrips_needs_valid_items` below REFUTES
+  `RoundTrips {}`, so (a) can only be discharged in the form `RoundTripsV` (arguments carry
+  `Valid` items only — the only items a Python process can hold, `valid_iff_constructible`).
+  `cache_transparent` below therefore does not go through `cache_transparent_partial`: it has
+  neither (a) nor (c), and (b) is discharged too (`build_budget_suffices`): the only hypotheses
+  left are the invariant of the state (reachable states have it: `cache_transparent_seq`) and
+  "arguments carry valid items".
 -/
 
 theorem cache_transparent_partial (fx : Fixes) (hRT : RoundTrips fx) (c : Cache) (hc : c.Sound fx)
@@ -352,12 +361,13 @@ theorem maxlen0_unfixed_raises :
     (build ⟨true, false⟩ .atomic [.int 0, .int 0]).toOption = some (.sent (.atom 0 0)) := by
   decide
 
-/-! ### ident / spec round trips (evaluated instances; the general statement is `RoundTrips`)
+/-! ### ident / spec round trips: evaluated instances, then the general theorems
 
-  FULL STATEMENTS (kept):
+  FULL STATEMENTS (kept; PROVED below as `ident_roundtrip`, `spec_roundtrip`, `roundTrips`):
     statement ident_roundtrip (x : Item) (hx : x.Valid) : fromIdent {} (identArg x) = .ok x
     statement spec_roundtrip  (x : Item) (hx : x.Valid) : construct x.type (specArgs x) = .ok x
-    statement roundTrips : RoundTrips {}
+    statement roundTrips : RoundTrips {}      -- false as stated, see `roundTrips_needs_valid_items`;
+                                              -- proved for arguments carrying valid items: `RoundTripsV`
 -/
 
 def exBig : Sent :=
@@ -376,5 +386,214 @@ theorem spec_roundtrip_instances :
     (build {} .operated (specArgs (.sent exBig))).toOption = some (.sent exBig) ∧
     (build {} .constant (specArgs (.param (.const 2 5)))).toOption = some (.param (.const 2 5)) := by
   decide
+
+/-! ### every built item is valid; the valid items are the constructible ones -/
+
+/-- whatever a constructor call returns — from arguments whose embedded items are valid — is
+    `Valid` (indices within the maxima, arities matching, all the way down) and hence `WF`, the
+    hypothesis of the order theorems above -/
+theorem built_valid (fx : Fixes) (cls : Cls) (args : List Arg) (x : Item) (ha : argsVI args = true)
+    (h : build fx cls args = .ok x) : x.Valid = true ∧ x.WF = true :=
+  have hv := evalP_valid fx _ cls args x ha h
+  ⟨hv, Item.valid_WF x hv⟩
+
+example : (Item.sent exBig).Valid = true ∧ (Item.sent exBig).WF = true :=
+  built_valid {} .lexicalAbc [identArg (.sent exBig)] _ (by decide) rfl
+
+/-- `Valid` is exactly "a fresh process can construct it from ints, strings and tuples" -/
+theorem valid_iff_constructible (fx : Fixes) (hs : fx.sysPred = true) (x : Item) :
+    x.Valid = true ↔ ∃ cls args, noItems args = true ∧ build fx cls args = .ok x :=
+  Ptx.valid_iff_constructible fx hs x
+
+example : ∃ cls args, noItems args = true ∧ build {} cls args = .ok (.pred Pred.identity) :=
+  (valid_iff_constructible {} rfl _).mp (by decide)
+/-- … and `Atomic(100, 0)` (index above the maximum) is not constructible -/
+example : ¬ ∃ cls args, noItems args = true ∧ build {} cls args = .ok (.sent (.atom 100 0)) :=
+  fun h => absurd ((valid_iff_constructible {} rfl _).mpr h) (by decide)
+
+/-- GENERAL ident round trip: for every valid item of any of the nine types (system predicates
+    included, any subscript, indices within the maxima) `LexicalAbc(x.ident)` in a fresh process
+    returns `x` — with fix 1 (`7a39e5b`); without it the statement fails
+    (`cache_not_transparent_unfixed`) -/
+theorem ident_roundtrip (fx : Fixes) (hs : fx.sysPred = true) (x : Item) (hx : x.Valid = true) :
+    fromIdent fx (identArg x) = .ok x :=
+  ident_roundtrip_gen fx hs x hx
+
+example : fromIdent {} (identArg (.sent exId)) = .ok (.sent exId) :=
+  ident_roundtrip {} rfl _ (by decide)
+example : fromIdent {} (identArg (.op (.b .mbicond))) = .ok (.op (.b .mbicond)) :=
+  ident_roundtrip {} rfl _ (by decide)
+
+/-- GENERAL spec round trip: `type(x)(*x.spec)` returns `x` (`construct` = `build` for the seven
+    classes behind the metaclass call, the enum lookup for Quantifier / Operator) -/
+theorem spec_roundtrip (fx : Fixes) (hs : fx.sysPred = true) (x : Item) (hx : x.Valid = true) :
+    construct fx (targetOf x) (specArgs x) = .ok x :=
+  spec_roundtrip_gen fx hs x hx
+
+/-- … in terms of `build` for the seven lexical classes -/
+theorem spec_roundtrip_build (fx : Fixes) (hs : fx.sysPred = true) (x : Item) (hx : x.Valid = true)
+    (c : Cls) (hc : targetOf x = .lex c) : build fx c (specArgs x) = .ok x := by
+  have := spec_roundtrip fx hs x hx
+  rw [hc] at this
+  exact this
+
+example : build {} .predicated (specArgs (.sent exId)) = .ok (.sent exId) :=
+  spec_roundtrip_build {} rfl _ (by decide) _ rfl
+example : construct {} .quantifier (specArgs (.quant .univ)) = .ok (.quant .univ) :=
+  spec_roundtrip {} rfl _ rfl
+
+/-- hypothesis (a) of `cache_transparent_partial`, discharged: every item a call returns (from
+    arguments carrying valid items) is rebuilt from its ident -/
+theorem roundTrips (fx : Fixes) (hs : fx.sysPred = true) : RoundTripsV fx := roundTripsV fx hs
+
+example : ∃ m, keyBuildP {} m (identArg (.sent exA)) = .ok (.sent exA) :=
+  roundTrips {} rfl 5 .sentence [.item (.sent exA)] _ (by decide) rfl
+
+/-- … while the unrestricted `RoundTrips` is FALSE for the fixed code: the model's argument type
+    can carry an `Item` value that no constructor returns; the passthrough hands it back, and its
+    ident is rejected (`Atomic(100, 0)`: index above the maximum → ValueError) -/
+theorem roundTrips_needs_valid_items : ¬ RoundTrips {} := by
+  intro h
+  obtain ⟨m, hm⟩ := h 1 .sentence [.item (.sent (.atom 100 0))] (.sent (.atom 100 0)) rfl
+  rw [keyBuildP_ident] at hm
+  cases m with
+  | zero => exact nomatch hm
+  | succ m =>
+    have : constructN {} (m+1) (targetOf (.sent (.atom 100 0))) (specArgs (.sent (.atom 100 0)))
+        = .error .value := rfl
+    rw [this] at hm
+    exact nomatch hm
+
+/-- the witness: the passthrough returns the ill-formed value, which is not `Valid` -/
+example : build {} .sentence [.item (.sent (.atom 100 0))] = .ok (.sent (.atom 100 0)) ∧
+    (Item.sent (.atom 100 0)).Valid = false ∧
+    (build {} .atomic [.int 100, .int 0]).toOption = none := ⟨rfl, rfl, rfl⟩
+
+/-! ### the full cache invariant; transparency without hypotheses (a) and (c) -/
+
+/-- the invariant `Cache.Inv` (Proofs/LangCacheInv.lean) in the terms of the statement above
+    (it additionally keeps `queue` and the keys of `idx` duplicate-free) -/
+theorem inv_as_stated (fx : Fixes) (c : Cache) (hc : c.Inv fx) :
+    c.Sound fx ∧ c.rev.map (·.1) = c.queue ∧ c.queue.length ≤ c.maxlen ∧
+    (∀ e ∈ c.rev, Arg.item e.1 ∈ e.2 ∧ ∀ k ∈ e.2, c.get k = some e.1) ∧
+    (∀ e ∈ c.idx, ∃ ks, (e.2, ks) ∈ c.rev ∧ e.1 ∈ ks) :=
+  ⟨hc.sound, Shape.as_stated hc.shape⟩
+
+example :
+    let c := (metacall {} (Cache.empty 2) .operated [.str "Negation", .item (.sent (.atom 0 0))]).2
+    c.rev.map (·.1) = c.queue ∧ c.queue = [.sent exA] ∧ c.idx.length = 3 := by decide
+
+/-- the empty cache of every size satisfies it (size 0 needs fix 2, `59f28ed`) -/
+theorem empty_inv (fx : Fixes) (maxlen : Nat) (h : fx.maxlen0 = true ∨ 0 < maxlen) :
+    (Cache.empty maxlen).Inv fx := Inv.empty fx maxlen h
+
+example : (Cache.empty 0).Inv {} ∧ (Cache.empty 1).Inv ⟨true, false⟩ :=
+  ⟨empty_inv _ _ (Or.inl rfl), empty_inv _ _ (Or.inr (by decide))⟩
+
+/-- `cache[key] = value` on a state satisfying the invariant NEVER raises (no KeyError from
+    `idx[value]`, `rev[value]`, `rev.pop(old)`, `del idx[k]`; no IndexError from `popleft`) and
+    keeps the invariant — for every maxlen and whatever was evicted before — provided `value` is
+    what a fresh build of `key` returns -/
+theorem store_inv (fx : Fixes) (c : Cache) (hc : c.Inv fx) (key : Arg) (v : Item)
+    (hk : ∃ m, keyBuildP fx m key = .ok v) : ∃ c', c.store fx key v = .ok c' ∧ c'.Inv fx :=
+  Inv.store hc hk
+
+example : ∃ c', (Cache.empty 1).store {} (.item (.quant .ex)) (.quant .ex) = .ok c' ∧ c'.Inv {} :=
+  store_inv {} _ (empty_inv _ _ (Or.inl rfl)) _ _ ⟨0, rfl⟩
+
+/-- a fresh build never raises the KeyError / IndexError of DequeCache -/
+theorem build_never_crashes (fx : Fixes) (cls : Cls) (args : List Arg) :
+    ¬ isCrash (build fx cls args) := build_not_crash fx cls args
+
+example : isCrash (.error .index) ∧ ¬ isCrash (build ⟨true, false⟩ .atomic [.int 0, .int 0]) :=
+  ⟨Or.inr rfl, build_never_crashes _ _ _⟩
+
+/-- hypothesis (b) discharged: the recursion budget `fuelFor` of the model suffices for EVERY
+    call (any class, any arguments — nested tuples, strings, items, malformed ones included):
+    `build` never answers the model's budget error.  (Each abstract → concrete → abstract round
+    of nested calls strips two tuple levels off the arguments; `fuelFor` is twice their size.) -/
+theorem build_budget_suffices (fx : Fixes) (cls : Cls) (args : List Arg) :
+    build fx cls args ≠ .error .fuel := build_ne_fuel fx cls args
+
+/-- … while a smaller budget does run out: the bound is not vacuous -/
+example : evalP {} 2 .sentence [exA.ident] = .error .fuel ∧
+    build {} .sentence [exA.ident] = .ok (.sent exA) := ⟨rfl, rfl⟩
+
+/-- CACHE TRANSPARENCY, one call: in EVERY cache state satisfying the invariant (any maxlen —
+    0, 1, 2, … —, any eviction history), for every class and arguments carrying valid items,
+    the metaclass call answers exactly what the same call answers with nothing cached (item or
+    exception kind), never raises from inside DequeCache, returns a valid item if it returns
+    one, and leaves a state satisfying the invariant.  No hypothesis (a), (b) or (c) is left:
+    the recursion budget of the model always suffices (`build_budget_suffices`). -/
+theorem cache_transparent (fx : Fixes) (hsp : fx.sysPred = true) (c : Cache) (hc : c.Inv fx)
+    (cls : Cls) (args : List Arg) (hav : argsVI args = true) :
+    (metacall fx c cls args).1 = build fx cls args ∧ (metacall fx c cls args).2.Inv fx ∧
+    ¬ isCrash (metacall fx c cls args).1 ∧
+    (∀ x, (metacall fx c cls args).1 = .ok x → x.Valid = true ∧ x.WF = true) := by
+  obtain ⟨h1, h2⟩ := metacall_spec fx hsp c hc cls args hav (build_ne_fuel fx cls args)
+  refine ⟨h1, h2, by rw [h1]; exact build_not_crash fx cls args, ?_⟩
+  intro x hx
+  rw [h1] at hx
+  exact built_valid fx cls args x hav hx
+
+example :
+    let c := (metacall {} (Cache.empty 1) .operated [.str "Negation", .item (.sent (.atom 0 0))]).2
+    (metacall {} c .sentence [exA.ident]).1 = .ok (.sent exA) := by
+  intro c
+  have hc : c.Inv {} :=
+    (cache_transparent {} rfl _ (empty_inv _ _ (Or.inl rfl)) .operated
+      [.str "Negation", .item (.sent (.atom 0 0))] (by decide)).2.1
+  exact (cache_transparent {} rfl c hc .sentence [exA.ident] (by decide)).1.trans rfl
+
+/-- CACHE TRANSPARENCY, all histories: for every maxlen and every finite sequence of metaclass
+    calls (any of the eleven classes, arguments carrying valid items) run against ONE cache that
+    starts empty — so with whatever hits, stores and evictions the sequence causes — the k-th
+    answer is the answer of the k-th call in a fresh process; no answer is a KeyError /
+    IndexError from DequeCache; the final cache satisfies the invariant. -/
+theorem cache_transparent_seq (fx : Fixes) (hsp : fx.sysPred = true) (maxlen : Nat)
+    (hml : fx.maxlen0 = true ∨ 0 < maxlen) (calls : List (Cls × List Arg))
+    (h : ∀ cl ∈ calls, argsVI cl.2 = true) :
+    (runCalls fx (Cache.empty maxlen) calls).1 = calls.map (fun cl => build fx cl.1 cl.2) ∧
+    (runCalls fx (Cache.empty maxlen) calls).2.Inv fx ∧
+    (∀ r ∈ (runCalls fx (Cache.empty maxlen) calls).1, ¬ isCrash r) := by
+  obtain ⟨h1, h2⟩ := runCalls_spec fx hsp calls _ (Inv.empty fx maxlen hml)
+    (fun cl hcl => ⟨h cl hcl, build_ne_fuel fx cl.1 cl.2⟩)
+  refine ⟨h1, h2, ?_⟩
+  intro r hr
+  rw [h1] at hr
+  obtain ⟨cl, _, rfl⟩ := List.mem_map.mp hr
+  exact build_not_crash fx cl.1 cl.2
+
+example : (runCalls ⟨true, false⟩ (Cache.empty 2) [(.atomic, [.int 1, .int 0]), (.atomic, [.int 1, .int 0])]).1
+    = [.ok (.sent (.atom 1 0)), .ok (.sent (.atom 1 0))] :=
+  (cache_transparent_seq ⟨true, false⟩ rfl 2 (Or.inr (by decide)) _ (by
+    intro cl hcl
+    simp only [List.mem_cons, List.not_mem_nil, or_false, or_self] at hcl
+    subst hcl
+    decide)).1
+
+/-- … for the fixed code (`{}` = fixes 1 and 2), EVERY maxlen including 0 -/
+theorem cache_transparent_seq_fixed (maxlen : Nat) (calls : List (Cls × List Arg))
+    (h : ∀ cl ∈ calls, argsVI cl.2 = true) :
+    (runCalls {} (Cache.empty maxlen) calls).1 = calls.map (fun cl => build {} cl.1 cl.2) ∧
+    (runCalls {} (Cache.empty maxlen) calls).2.Inv {} :=
+  ⟨(cache_transparent_seq {} rfl maxlen (Or.inl rfl) calls h).1,
+   (cache_transparent_seq {} rfl maxlen (Or.inl rfl) calls h).2.1⟩
+
+/-- non-vacuity: the size-1 history of the example above (build ¬A, evict it, rebuild it from its
+    ident, then a failing call), as an instance of the theorem, for maxlen 1 and for maxlen 0 -/
+def exCalls : List (Cls × List Arg) :=
+  [(.operated, [.str "Negation", .item (.sent (.atom 0 0))]),
+   (.atomic, [.int 1, .int 0]),
+   (.sentence, [exA.ident]),
+   (.constant, [.int 9, .int 0])]
+
+theorem exCalls_ok : ∀ cl ∈ exCalls, argsVI cl.2 = true := by decide
+
+example : (runCalls {} (Cache.empty 1) exCalls).1 =
+      [.ok (.sent exA), .ok (.sent (.atom 1 0)), .ok (.sent exA), .error .value] ∧
+    (runCalls {} (Cache.empty 0) exCalls).1 =
+      [.ok (.sent exA), .ok (.sent (.atom 1 0)), .ok (.sent exA), .error .value] :=
+  ⟨(cache_transparent_seq_fixed 1 exCalls exCalls_ok).1, (cache_transparent_seq_fixed 0 exCalls exCalls_ok).1⟩
 
 end Ptx.Props.C14
